@@ -19,10 +19,7 @@ TRUSTED = vcheck.STD_TRUSTED + [
 
 
 def hexec(args):
-    rc, out = sh([os.path.join(BIN, "h_exec")] + args, cwd=REPO, env=vcheck.goenv(), timeout=1500)
-    if rc != 0:
-        raise vcheck.Broken("h_exec failed", out[-3000:])
-    return [json.loads(l) for l in out.splitlines() if l.startswith("{")]
+    return X.run_harness(os.path.join(BIN, "h_exec"), args, REPO, vcheck.goenv(), 1500)
 
 
 def steps_of(seqs):
